@@ -2,6 +2,7 @@
 # usage: seed_eval.sh <ID> <crate-for-demo> <worktree>     - confirm a seeded change and store it under /verif/seeded/<ID>/
 set -u
 ID=$1; CRATE=$2; WT=$3; FEAT=${4:-}
+OUT=${SEED_OUT:-$ID}   # directory name under /verif/seeded (round 2: SEED_OUT=<ID>-r2)
 export CARGO_TARGET_DIR=$WT/target CARGO_NET_OFFLINE=true
 cd $WT || exit 2
 echo "== $ID: existing suite WITH the change"
@@ -17,10 +18,10 @@ echo "== demo WITHOUT the change (must pass)"
 cargo test --offline -p $CRATE $FEAT --test zz_demo_test 2>&1 | grep -E "^test result|error\[" | head -3 > /tmp/seed_without_$ID.txt; cat /tmp/seed_without_$ID.txt
 git apply /tmp/seed_patch_$ID.diff
 rm -f $CRATE/tests/zz_demo_test.rs; rmdir $CRATE/tests 2>/dev/null
-mkdir -p /verif/seeded/$ID
-cp /tmp/seed_patch_$ID.diff /verif/seeded/$ID/patch.diff
-cp demo/demo_test.rs /verif/seeded/$ID/demo_test.rs
-cp demo/NOTES.md /verif/seeded/$ID/NOTES.md 2>/dev/null
-echo "$T1" > /verif/seeded/$ID/confirm.txt
-echo "with: $(cat /tmp/seed_with_$ID.txt)" >> /verif/seeded/$ID/confirm.txt
-echo "without: $(cat /tmp/seed_without_$ID.txt)" >> /verif/seeded/$ID/confirm.txt
+mkdir -p /verif/seeded/$OUT
+cp /tmp/seed_patch_$ID.diff /verif/seeded/$OUT/patch.diff
+cp demo/demo_test.rs /verif/seeded/$OUT/demo_test.rs
+cp demo/NOTES.md /verif/seeded/$OUT/NOTES.md 2>/dev/null
+echo "$T1" > /verif/seeded/$OUT/confirm.txt
+echo "with: $(cat /tmp/seed_with_$ID.txt)" >> /verif/seeded/$OUT/confirm.txt
+echo "without: $(cat /tmp/seed_without_$ID.txt)" >> /verif/seeded/$OUT/confirm.txt
